@@ -31,6 +31,14 @@ open(p,'w').write(s.replace(old,new,1))
 PY
 fi
 git -C $wt diff --stat | tail -1
-cd $h/harness && CARGO_NET_OFFLINE=true cargo build --release --offline 2>&1 | grep -E '^error' -A8 | head -20
+cd $h/harness || exit 2
+if ! out=$(CARGO_NET_OFFLINE=true cargo build --release --offline 2>&1); then
+    # never judge a change with a stale binary (e.g. /verif/harness was
+    # copied in the middle of an edit)
+    echo "$out" | grep -E '^error' -A8 | head -20
+    echo "INCONCLUSIVE: harness build failed in $h"
+    git -C $wt reset -q --hard
+    exit 2
+fi
 FV_ROOT=$h ./target/release/fv $prop quick "$@" 2>&1 | grep -E '^VIOLATION|held on|INCONCLUSIVE|KNOWN' | cut -c1-700 | head -6
 git -C $wt reset -q --hard
